@@ -22,7 +22,22 @@ import (
 
 var rec = vt.New("C13")
 
-func TestMain(m *testing.M) { vt.Main(m, rec) }
+func TestMain(m *testing.M) {
+	// Two shards in three run in a local time zone whose offset changed twelve hours ago, by one hour forward or back
+	// (a process in a zone with daylight-saving time, the day after the change): the statement's "a day" and "five
+	// days" are durations, not calendar days, so nothing may depend on the zone.
+	switch vt.Shard() % 3 {
+	case 1:
+		if z, err := cachekit.ZoneWithTransition("Forward", time.Now().Add(-12*time.Hour), -5*3600, -4*3600); err == nil {
+			time.Local = z
+		}
+	case 2:
+		if z, err := cachekit.ZoneWithTransition("Back", time.Now().Add(-12*time.Hour), -4*3600, -5*3600); err == nil {
+			time.Local = z
+		}
+	}
+	vt.Main(m, rec)
+}
 
 const (
 	nIDs   = 5
@@ -162,6 +177,8 @@ func checkHist(h histCase) *vt.Fail {
 		}
 	}
 	var trail []string
+	var handles [2]*cache.Cache
+	cur := 0
 	for step, o := range h.Ops {
 		if o.ID < 0 || o.ID >= nIDs || o.C < 0 || o.C >= nCont {
 			continue
@@ -172,6 +189,16 @@ func checkHist(h histCase) *vt.Fail {
 		trail = append(trail, fmt.Sprintf("%d:%s", step, descr(o)))
 		ctx := strings.Join(trail, " ")
 		switch o.Op {
+		case "switch":
+			// continue through the other of two Cache handles on the same directory (another user of the cache)
+			handles[cur] = c
+			cur ^= 1
+			if handles[cur] == nil {
+				if handles[cur], err = cache.Open(d); err != nil {
+					return vt.Failf("HARNESS-open", "%v", err)
+				}
+			}
+			c = handles[cur]
 		case "put":
 			if err := c.PutBytes(id, content); err != nil {
 				return vt.Failf("put-failed", "%s: %v", ctx, err)
@@ -454,7 +481,17 @@ func genSkeleton(t *rapid.T) histCase {
 		}
 		add(o)
 	}
+	other := rapid.IntRange(0, 2).Draw(t, "otherhandle") == 1
+	if other {
+		add(op{Op: "switch"}) // the trim is done by another user of the directory
+	}
 	add(op{Op: "trim"})
+	if other && rapid.Bool().Draw(t, "switchback") {
+		add(op{Op: "switch"})
+		if rapid.Bool().Draw(t, "reput") {
+			add(op{Op: "put", ID: rapid.IntRange(0, nIDs-1).Draw(t, "id"), C: rapid.IntRange(0, nCont-1).Draw(t, "c")})
+		}
+	}
 	for i, nl := 0, rapid.IntRange(0, 2).Draw(t, "nlook2"); i < nl; i++ {
 		add(op{Op: rapid.SampledFrom([]string{"get", "getbytes", "getfile"}).Draw(t, "look"), ID: rapid.IntRange(0, nIDs-1).Draw(t, "id")})
 	}
@@ -471,7 +508,9 @@ func genHist(t *rapid.T) histCase {
 	var h histCase
 	for i := 0; i < n; i++ {
 		o := op{ID: rapid.IntRange(0, nIDs-1).Draw(t, "id"), C: rapid.IntRange(0, nCont-1).Draw(t, "c")}
-		switch rapid.IntRange(0, 15).Draw(t, "op") {
+		switch rapid.IntRange(0, 16).Draw(t, "op") {
+		case 16:
+			o.Op = "switch"
 		case 0, 1, 2:
 			o.Op = "put"
 		case 3, 4, 5, 6:
